@@ -157,7 +157,11 @@ def scenarios(fam, ref):
 
             def mk(degree=degree, T=T, breaks=breaks, ncells=ncells):
                 def run(mod, ctx):
-                    kn = numenv.karr(T)
+                    fm = getattr(ctx, 'float_mode', False)          # float replay: plain numpy floats
+                    KK = (lambda v: float(v)) if fm else K
+                    farr = (lambda vs: np.array([float(v) for v in vs])) if fm else arr
+                    empty = (lambda shape: np.zeros(shape)) if fm else (lambda shape: np.empty(shape, dtype=object))
+                    kn = np.array([float(t) for t in T]) if fm else numenv.karr(T)
                     x = SReal(z3.Real('x'))
                     ctx.assume(z3.And(x.t >= z3.RealVal(breaks[0]), x.t <= z3.RealVal(breaks[-1])))
                     y = SReal(z3.Real('y'))
@@ -165,27 +169,34 @@ def scenarios(fam, ref):
                     n = ncells + degree
                     c = sym_vec('c', n)
                     C = sym_mat('C', n, n)
+                    if fm:
+                        c, C, x, y = np.array(c, dtype=float), np.array(C, dtype=float), float(x), float(y)
+                        lo_, hi_ = float(breaks[0]), float(breaks[-1])
+                        if not (lo_ <= x <= hi_):
+                            x = lo_ + (abs(x) % 1.0) * (hi_ - lo_)
+                        if not (lo_ <= y <= hi_):
+                            y = lo_ + (abs(y) % 1.0) * (hi_ - lo_)
                     res = []
                     span = mod.nu_find_span(kn, degree, x)
                     res.append(span)
-                    v = np.empty(degree + 1, dtype=object)
+                    v = empty(degree + 1)
                     mod.nu_basis_funs(kn, degree, x, span, v)
                     res += list(v)
-                    v = np.empty(degree + 1, dtype=object)
+                    v = empty(degree + 1)
                     mod.nu_basis_funs_1st_der(kn, degree, x, span, v)
                     res += list(v)
                     for der in (0, 1):
                         res.append(mod.nu_eval_spline_1d_scalar(x, kn, degree, c, der))
-                        yv = np.empty(2, dtype=object)
-                        mod.nu_eval_spline_1d_vector(arr([x, K(breaks[-1])]), kn, degree, c, yv, der)
+                        yv = empty(3)              # points not in increasing order
+                        mod.nu_eval_spline_1d_vector(farr([KK(breaks[-1]), x, KK(breaks[0])]), kn, degree, c, yv, der)
                         res += list(yv)
                     for d1, d2 in ((0, 0), (0, 1), (1, 0), (1, 1)):
                         res.append(mod.nu_eval_spline_2d_scalar(x, y, kn, degree, kn, degree, C, d1, d2))
-                        z = np.empty((2, 1), dtype=object)
-                        mod.nu_eval_spline_2d_cross(arr([x, K(breaks[0])]), arr([y]), kn, degree, kn, degree, C, z, d1, d2)
+                        z = empty((2, 2))          # neither X nor Y is increasing
+                        mod.nu_eval_spline_2d_cross(farr([x, KK(breaks[0])]), farr([KK(breaks[-1]), y]), kn, degree, kn, degree, C, z, d1, d2)
                         res += list(z.ravel())
-                        zv = np.empty(2, dtype=object)
-                        mod.nu_eval_spline_2d_vector(arr([x, K(breaks[0])]), arr([y, K(breaks[-1])]), kn, degree, kn, degree, C, zv, d1, d2)
+                        zv = empty(2)
+                        mod.nu_eval_spline_2d_vector(farr([x, KK(breaks[0])]), farr([y, KK(breaks[-1])]), kn, degree, kn, degree, C, zv, d1, d2)
                         res += list(zv)
                     return res
                 return run
@@ -378,6 +389,34 @@ def scenarios(fam, ref):
                     return res
                 return run
             out.append(('poloidal steps (%s splines)' % ('uniform cubic' if cub else 'general'), mk2()))
+
+        def many_sweeps(mod, ctx):
+            # float-only: the implicit iteration on a strong potential with a tight tolerance needs far more sweeps than any
+            # exact-arithmetic run can afford; reference and copy are compared on real numpy arrays
+            if not getattr(ctx, 'float_mode', False):
+                return []
+            from lib import splineoracle as SO
+            from checks import c12
+            nq, ncr, deg = 8, 6, 3
+            qb, rb = c12.spaces('cu', nq, ncr, deg)
+            kq = np.array([float(qb[0]), float(qb[-1]), float(qb[1] - qb[0]), nq])
+            kr = np.array([float(rb[0]), float(rb[-1]), float(rb[1] - rb[0]), ncr])
+            Tq, Tr = SO.math_knots(qb, deg, True), SO.math_knots(rb, deg, False)
+            qpts = np.array([float(qb[0]) + k * float(qb[1] - qb[0]) for k in range(nq)])
+            rpts = np.array([float(sum(Tr[i + 1:i + deg + 1], Fr(0)) / deg) for i in range(ncr + deg)])
+            rng = np.random.RandomState(21)
+            cphi = np.empty((nq + deg, ncr + deg))
+            base = 3.5 * np.sin(np.linspace(0, 2 * np.pi, nq, endpoint=False))          # about 100-250 sweeps to reach 1e-13
+            for i in range(nq + deg):
+                cphi[i, :] = base[i % nq] * (1.0 + 0.3 * np.arange(ncr + deg))
+            cpol = rng.rand(nq + deg, ncr + deg)
+            cpol[nq:, :] = cpol[:deg, :]
+            cn = [float(getattr(Consts, k)) for k in ('CN0', 'kN0', 'deltaRN0', 'rp', 'CTi', 'kTi', 'deltaRTi')]
+            f = np.zeros((nq, len(rpts)))
+            work = [np.zeros((nq, len(rpts))) for _ in range(8)]
+            mod.poloidal_advection_step_impl(f, 0.5, 0.5, rpts, qpts, *work, kq, kr, cphi, deg, deg, kq, kr, cpol, deg, deg, *cn, 1.0, 1e-13, True, True)
+            return list(f.ravel()) + list(work[6].ravel()) + list(work[7].ravel())
+        out.append(('float: implicit poloidal step, strong potential, tolerance 1e-13', many_sweeps))
     return out
 
 
@@ -430,7 +469,17 @@ def work(item):
             npaths += 1
             if kind == 'abort':
                 if val.inconclusive:
-                    res['inconclusive'].append('abort %s (%s, %s)' % (val.why, copy_rel, label))
+                    pin = {}
+                    if ctx.check() == 'sat':
+                        pm = ctx.model()
+                        pin = {str(d): str(pm[d]) for d in pm.decls() if len(str(d)) <= 3}
+                    prob = float_disagreement(fam, copy_rel, label, pin) or float_disagreement(fam, copy_rel, label, {})
+                    if prob:
+                        res['obligations'] += 1
+                        res['violations'].append(('copies:%s' % copy_rel, '%s and its reference disagree in scenario "%s": %s (symbolic run stopped: %s; witness from the float run)' % (
+                            copy_rel, label, prob, val.why), dict(kind='copy', copy=copy_rel, scenario=label, concrete=prob)))
+                    else:
+                        res['inconclusive'].append('abort %s (%s, %s)' % (val.why, copy_rel, label))
                 continue
             res['obligations'] += 1
             if kind == 'exc':
@@ -489,6 +538,14 @@ def work(item):
                     res['inconclusive'].append('unknown equivalence query (%s, %s)' % (copy_rel, label))
         if len(res['samples']) < 1:
             res['samples'].append(dict(copy=copy_rel, scenario=label, paths=npaths))
+        if label.startswith('float:'):
+            res['obligations'] += 1
+            prob = float_disagreement(fam, copy_rel, label, {})
+            if prob:
+                res['violations'].append(('copies:%s' % copy_rel, '%s and its reference disagree in scenario "%s": %s' % (copy_rel, label, prob),
+                                          dict(kind='copy', copy=copy_rel, scenario=label, concrete=prob)))
+            else:
+                res['discharged'] += 1
     numenv.disable()
     res['stats'] = symx.GLOBAL.as_dict()
     symx.GLOBAL.__init__()
